@@ -23,8 +23,18 @@ def outStr : Out → String
   | .trans a b adm t => s!"{a.num}>{b.num}/{adm.num}@{t}"
   | .deleted t => s!"deleted@{t}"
 
+def onConn (k : Conn) : Out → Bool
+  | .open c _ => c == k
+  | .ka c _ => c == k
+  | .notif c _ _ _ => c == k
+  | .close c _ => c == k
+  | _ => false
+
+/-- messages per connection in their order; connections in the fixed order p, x, o (what is
+    written on different connections is observed by different readers, so only the order on each
+    connection is defined) -/
 def render (s : St) (outs : List Out) : String :=
-  let ms := (outs.filter (fun o => !isTrans o)).map outStr
+  let ms := (outs.filter (onConn .p) ++ outs.filter (onConn .x) ++ outs.filter (onConn .o)).map outStr
   let ts := (outs.filter isTrans).map outStr
   "out=[" ++ " ".intercalate ms ++ "] st=[" ++ " ".intercalate ts ++ "] fsm=" ++
     (if s.deleted then "gone" else toString s.st.num) ++ " admin=" ++ toString s.admin.num ++
